@@ -133,7 +133,7 @@ theorem styled_rrect_map_translate (st : Style) (r : RoundedRect) (d : Pt)
     obtain ⟨a', col', e, ha'⟩ := styled_rrect_calls_in_range st _ h' _ hc'
     simp only [Call.translate, Call.fillSolid.injEq] at e
     unfold Call.MoveOK
-    exact ⟨ha, by rw [e.1]; exact ha'⟩
+    exact Rect.MoveOK.of_inRange ha (by rw [e.1]; exact ha')
   rw [styled_rrect_calls_translate st r d h h']
   exact ⟨runNative_map_translate B d _ hok, runDefault_map_translate B d _ hok⟩
 
